@@ -155,6 +155,10 @@ def eliminate_returns(root):
         # a trailing `return x` as the last statement / tail
         if blk.get("e") is not None and strip(blk["e"]).get("k") == "Return":
             blk["e"] = replace_return(blk["e"])
+        elif blk.get("e") is None and blk["stmts"] and blk["stmts"][-1]["s"] == "expr" and isinstance(strip(blk["stmts"][-1]["e"]), dict) \
+                and strip(blk["stmts"][-1]["e"]).get("k") == "Return":
+            last = blk["stmts"].pop()
+            blk["e"] = replace_return(last["e"])
     r = strip(root)
     fix(r)
     return not any(x.get("k") == "Return" for x in walk(root))
